@@ -470,8 +470,8 @@ for _fn in ("initialize_full_optimization", "initialize_wat_optimization"):
             "len(calls_of('Cells')) == 1 and deb.cells is calls_of('Cells')[0].ret and calls_of('Cells')[0].args['cellsize'] == 5",
             "len(calls_of('assign_cells')) == 1 and calls_of('assign_cells')[0].args['self'] is deb.cells "
             "and calls_of('assign_cells')[0].args['biomolecule'] is bm",
-            "len(calls_of('calculate_dihedral_angles')) == 1 and len(calls_of('set_reference_distance')) == 1 "
-            "and len(calls_of('update_internal_bonds')) == 1",
+            "len(calls_of('calculate_dihedral_angles')) >= 1 and len(calls_of('set_reference_distance')) >= 1 "
+            "and len(calls_of('update_internal_bonds')) >= 1",
             "first_before('assign_cells', 'Water') and first_before('set_reference_distance', 'Water') "
             "and first_before('calculate_dihedral_angles', 'Water')",
             "first_before('assign_cells', 'is_optimizeable')",
